@@ -466,3 +466,155 @@ func (s *sess) checkCallbacksOutsideStateLock(rule string) {
 	}
 	c.Check(n >= 2, rule, "", "callback invocations found", token.NoPos, fmt.Sprint(n), fmt.Sprintf("only %d calls of Trigger/LogonHandler found in package session", n))
 }
+
+// checkLocksReleased: no function of fns returns with a mutex it has taken still locked (every returning path is replayed over
+// the lock operations, deferred unlocks included). Returns the number of locking functions examined.
+func checkLocksReleased(c *core.Ctx, rule string, fns []*ssa.Function, consequence string) int {
+	nLock := 0
+	for _, fn := range fns {
+		takes := false
+		an.AllInstrs(fn, func(in ssa.Instruction) {
+			if cc := an.CallOf(in); cc != nil {
+				if _, op, ok := an.LockOp(cc); ok && (op == "Lock" || op == "RLock") {
+					takes = true
+				}
+			}
+		})
+		if !takes {
+			continue
+		}
+		nLock++
+		held := an.HeldAtReturn(fn)
+		ob := c.Ob(rule, an.NameOf(fn), "every mutex taken is released on every return", fn.Pos())
+		if len(held) == 0 {
+			ob.Ok("balanced on every returning path")
+		} else {
+			k := an.SortedKeys(held)[0]
+			ob.Fail("%s returns with %s still locked under [%s]: %s", an.NameOf(fn), k, held[k], consequence)
+		}
+	}
+	return nLock
+}
+
+// checkHandlersNeverCancel: no registered message handler (inbound or outbound, any type, any state) cancels the session's context
+// or stops the router on any path — the session's goroutines end with the session (disconnect event, Stop's chain), never
+// because of a message: a session that is logged on again after a peer's Logout would otherwise run without its timers.
+func (s *sess) checkHandlersNeverCancel(rule, consequence string) {
+	n := 0
+	for _, r := range s.roots() {
+		if r.Cat != "inbound" && r.Cat != "outbound" {
+			continue
+		}
+		n++
+		bad := ""
+		for _, t := range s.tr.Traces(r.Fn, s.m.AllStates) {
+			for _, e := range t.Events {
+				if e.Kind == "cancel" {
+					bad = e.String() + " on path: " + traceStr(t)
+				}
+			}
+		}
+		s.c.Check(bad == "", rule, r.Name(), "no message handler cancels the session context or stops the router", r.Fn.Pos(), "no cancel", bad+": "+consequence)
+	}
+	s.c.Check(n >= 8, rule, "", "registered message handlers found", token.NoPos, fmt.Sprint(n), fmt.Sprintf("only %d registered handlers found", n))
+}
+
+// checkApprovalIsTheCallbacks: the verdict the Logon handler acts on is the verdict of the application's callback.
+// (a) Session.LogonHandler is only ever assigned a parameter of the function that assigns it (the callback as the application
+// handed it over, not a wrapper that answers in its place — a cache, a default); (b) no function of the package recovers from a
+// panic without storing a non-nil error into its own error result (a recovered panic of the callback would otherwise turn into
+// the zero result: approval).
+func (s *sess) checkApprovalIsTheCallbacks(rule string) {
+	c := s.c
+	lh := c.Field("session", "Session", "LogonHandler")
+	if c.Anchor("logon callback field", lh != nil, "Session.LogonHandler", token.NoPos) {
+		n := 0
+		for _, fn := range s.allFuncs() {
+			an.AllInstrs(fn, func(in ssa.Instruction) {
+				st, ok := in.(*ssa.Store)
+				if !ok {
+					return
+				}
+				fa, ok := st.Addr.(*ssa.FieldAddr)
+				if !ok || an.FieldOf(fa) != lh {
+					return
+				}
+				n++
+				v := st.Val
+				if ct, isCT := v.(*ssa.ChangeType); isCT {
+					v = ct.X
+				}
+				_, isParam := v.(*ssa.Parameter)
+				c.Check(isParam || an.IsNilConst(v), rule, an.NameOf(fn), "the logon callback installed is the one the application handed over", st.Pos(), "Session.LogonHandler ← parameter",
+					"Session.LogonHandler ← "+an.Render(st.Val)+": something else than the application's callback gives the verdict on a Logon (a cached or default answer approves a Logon the application would refuse)")
+			})
+		}
+		c.Check(n >= 1, rule, "Session.LogonHandler", "assignment of the logon callback found", token.NoPos, fmt.Sprint(n), "no store to Session.LogonHandler found")
+	}
+	for _, fn := range s.allFuncs() {
+		var rec *ssa.Call
+		an.AllInstrs(fn, func(in ssa.Instruction) {
+			if call, ok := in.(*ssa.Call); ok {
+				if b, isB := call.Call.Value.(*ssa.Builtin); isB && b.Name() == "recover" {
+					rec = call
+				}
+			}
+		})
+		if rec == nil {
+			continue
+		}
+		// the function whose results the recovering closure can set
+		parent := fn.Parent()
+		hasErrResult := false
+		if parent != nil {
+			res := parent.Signature.Results()
+			for i := 0; i < res.Len(); i++ {
+				if types.Identical(res.At(i).Type(), types.Universe.Lookup("error").Type()) {
+					hasErrResult = true
+				}
+			}
+		}
+		if !hasErrResult {
+			continue
+		}
+		setsErr := false
+		an.AllInstrs(fn, func(in ssa.Instruction) {
+			st, ok := in.(*ssa.Store)
+			if !ok {
+				return
+			}
+			if fv, isFV := st.Addr.(*ssa.FreeVar); isFV && !an.IsNilConst(st.Val) {
+				if pt, isP := fv.Type().Underlying().(*types.Pointer); isP && types.Identical(pt.Elem(), types.Universe.Lookup("error").Type()) {
+					setsErr = true
+				}
+			}
+		})
+		c.Check(setsErr, rule, an.NameOf(fn), "a recovered panic is reported as an error of the recovering function", rec.Pos(), "err = fmt.Errorf(…) in the recover branch",
+			an.NameOf(parent)+" recovers from a panic without setting its error result: a panic of the code it wraps (the application's logon callback) comes back as a nil error — approval")
+	}
+}
+
+// checkAllTypesHandlersPassive: the all-types inbound handlers the session registers (sequence tracking, timer refresh) run in
+// front of every type handler. They stop the dispatch only when a store fails (otherwise the handler that restores the logged-on
+// state from a pending probe is skipped and the type handler sees the wrong state), and they answer nothing themselves (the type
+// handler still runs — DefaultHandler.serve offers the message to it regardless — so a Reject sent here is a second Reject).
+func (s *sess) checkAllTypesHandlersPassive(rule string) {
+	n := 0
+	for _, r := range s.regs {
+		if !r.In || r.Key != "ALL" || r.Fn == nil {
+			continue
+		}
+		n++
+		why := stopsChainWithoutStoreFailure(r.Fn)
+		s.c.Check(why == "", rule, an.NameOf(r.Fn), "an all-types incoming handler stops the dispatch only on a store failure", r.Fn.Pos(), "returns true, or (store error) == nil",
+			"this all-types incoming handler can return false — "+why+" — and IncomingHandlerPool.Range then skips the later all-types handlers (the one that restores SuccessfulLogged from a pending probe): the type handler judges the message in the wrong state")
+		sent := ""
+		for _, t := range s.tr.Traces(r.Fn, s.m.AllStates) {
+			for _, e := range sends(t) {
+				sent = strings.Join(e.Kinds, "|") + " on path: " + traceStr(t)
+			}
+		}
+		s.c.Check(sent == "", rule, an.NameOf(r.Fn), "an all-types incoming handler sends nothing", r.Fn.Pos(), "no send", "this all-types incoming handler sends "+sent+": the handler of the message's own type runs as well and answers a second time")
+	}
+	s.c.Check(n >= 2, rule, "", "all-types incoming handlers found", token.NoPos, fmt.Sprint(n), fmt.Sprintf("only %d all-types incoming handlers registered by the session", n))
+}
